@@ -227,7 +227,72 @@ def plan_C04(w):
     return gossip_family(w, "C04", c04_corrupt, "first and last event of a delivered block swapped")
 
 
+def c18_corrupt(d):
+    if d.get("a") == "Sync":
+        for b in d["o"].get("blocks", []):
+            if len(b["fws"]) >= 1:
+                b["ts"] += 5000
+                return True
+    return False
+
+
+def plan_C18(w):
+    q = Q(w)
+    known = vlib.load_known()
+    r = w.model_check("median", "MC_median.cfg", module="MedianLemma.tla", workers=8, timeout=600)
+    if not r.get("complete"):
+        raise Infra("MedianLemma did not complete: %s" % r.get("raw_tail"))
+    log("  mc median lemma: %s (n,k,f) cases, every timestamp assignment each" % r.get("distinct"))
+    run_mc(w, [("hg1", "MC_hg1.cfg", 4, 300)])
+    kinds = [("liarsA", dict(traces=4 if q else 16, n=0, steps=220 if q else 350)),
+             ("liarsB", dict(traces=2 if q else 8, n=7, steps=300 if q else 450))]
+    traces, sums = drive_all(w, gossip_specs(w, kinds), mode="liars")
+    g = [("gsp", dict(traces=3 if q else 12, n=0, steps=120 if q else 250, sched="mix"))]
+    t2, s2 = drive_all(w, gossip_specs(w, g))
+    tvs = w.validate_many(traces + t2, par=6)
+    violations, known_hits, drift = judge(w, "C18", tvs, known)
+    st = None
+    if not violations:
+        seg = first_segment(traces[0], os.path.join(w.dir, "seg.ndjson"))
+        st = selftest(w, "C18", seg, c18_corrupt, "a delivered block's timestamp shifted by 5000 s")
+    extra = {"selftest": st,
+             "median_lemma": "MedianLemma.tla exhaustive: n <= 7, k in SM(n)..n famous witnesses, f < n/3 liars over {-1e6,-7,0,3,4,1e6}, honest over {0,3,4}",
+             "liar_timestamps": "0, -1, 1, MinInt64, MaxInt64, +-2^62, +-2^40, year 9999, random int64, +-1000 s around now"}
+    return conclude(w, "C18", sums + s2, violations, known_hits, drift, extra=extra,
+                    assumptions=["timestamps beyond +-2^28 s of the trace start are compared by order only (TLC integers are 32 bit); exact median arithmetic is checked when the middle elements are within that range, which is the case the property's bound speaks about"])
+
+
+def c19_corrupt(d):
+    if d.get("a") == "Quorum":
+        d["x"]["rows"][6][1] += 1      # super-majority of n = 7 reported one too high
+        return True
+    return False
+
+
+def plan_C19(w):
+    known = vlib.load_known()
+    r = w.model_check("quorum", "MC_quorum.cfg", module="Quorum.tla", workers=8, timeout=600)
+    log("  mc quorum: distinct=%s (one state per n, n = 1..100000) %s" % (r.get("distinct"), "complete" if r.get("complete") else "INCOMPLETE"))
+    if not r.get("complete"):
+        raise Infra("Quorum.tla model checking did not complete: %s" % r.get("raw_tail"))
+    tr, sm = w.drive("quorum", "quorum", ["-seed", w.seed, "-steps", 40 if Q(w) else 400])
+    tv = w.validate(tr)
+    violations, known_hits, drift = judge(w, "C19", [tv], known)
+    st = None
+    if not violations:
+        st = selftest(w, "C19", tr, c19_corrupt, "SuperMajority reported for n=7 increased by one")
+    rows = tv["stats"].get("inserts", 0)
+    extra = {"selftest": st, "exhaustive": True,
+             "rows_tabulated_from_real_code": rows,
+             "explanation": "exhaustive over n = 1..100000 both in the TLA+ model (Quorum.tla, 4 lemmas per n) and on values tabulated from the real PeerSet; plus sets built by seeded add/remove sequences and SetAnchorBlock/CheckBlock acceptance for n = 1..10, k = 0..n real signatures"}
+    return conclude(w, "C19", [sm], violations, known_hits, drift, extra=extra, min_blocks=0,
+                    samples=[{"n": 7, "SuperMajority": 5, "TrustCount": 3}, {"n": 100000, "SuperMajority": 66667, "TrustCount": 33334}],
+                    assumptions=["beyond n = 100000 nothing is claimed by this check"])
+
+
 PLANS = {
+    "C18": plan_C18,
+    "C19": plan_C19,
     "C01": plan_C01,
     "C02": plan_C02,
     "C04": plan_C04,
